@@ -181,6 +181,133 @@ def getSwapFees(pool_config, amount, forPositiveImpact, swapPricingType):
     return SwapFees(amount - amount * factor, amount * factor)
 '''
 
+# ---- GMX v2 price impact (SwapPricingUtils.sol / PricingUtils.sol) -------------------------------------------------
+# impact(diff, factor, exponent) = diff^exponent * factor
+# same side:   sign(+ iff next diff < initial diff) * | impact(initial) - impact(next) |        (one factor)
+# crossover:   sign(+ iff positive > negative) * | impact(initial, positive factor) - impact(next, negative factor) |
+# the positive factor never exceeds the negative factor; pool USD values are amount * price, next = value + delta (>= 0)
+REF_IMPACT_FACTOR = '''
+def applyImpactFactor(diffUsd, impactFactor, impactExponentFactor):
+    return impactFactor * diffUsd ** impactExponentFactor
+'''
+
+REF_IMPACT_SAME = '''
+def getPriceImpactUsdForSameSideRebalance(initialDiffUsd, nextDiffUsd, impactFactor, impactExponentFactor):
+    a = PricingUtils.applyImpactFactor(initialDiffUsd, impactFactor, impactExponentFactor)
+    b = PricingUtils.applyImpactFactor(nextDiffUsd, impactFactor, impactExponentFactor)
+    if nextDiffUsd < initialDiffUsd:
+        return abs(a - b)
+    return -abs(a - b)
+'''
+
+REF_IMPACT_CROSS = '''
+def getPriceImpactUsdForCrossoverRebalance(initialDiffUsd, nextDiffUsd, positiveImpactFactor, negativeImpactFactor, impactExponentFactor):
+    pos = PricingUtils.applyImpactFactor(initialDiffUsd, positiveImpactFactor, impactExponentFactor)
+    neg = PricingUtils.applyImpactFactor(nextDiffUsd, negativeImpactFactor, impactExponentFactor)
+    if pos > neg:
+        return abs(pos - neg)
+    return -abs(pos - neg)
+'''
+
+REF_IMPACT_FACTORS = '''
+def getAdjustedSwapImpactFactors(pool_config):
+    return min(pool_config.swapImpactFactorPositive, pool_config.swapImpactFactorNegative), pool_config.swapImpactFactorNegative
+'''
+
+REF_IMPACT_FACTOR_ONE = '''
+def getAdjustedSwapImpactFactor(pool_config, isPositive):
+    both = MarketUtils.getAdjustedSwapImpactFactors(pool_config)
+    if isPositive:
+        return both[0]
+    return both[1]
+'''
+
+REF_IMPACT_INNER = '''
+def _getPriceImpactUsd(pool_config, pool_params):
+    d0 = abs(pool_params.poolUsdForTokenA - pool_params.poolUsdForTokenB)
+    d1 = abs(pool_params.nextPoolUsdForTokenA - pool_params.nextPoolUsdForTokenB)
+    same = (pool_params.poolUsdForTokenA <= pool_params.poolUsdForTokenB) == (pool_params.nextPoolUsdForTokenA <= pool_params.nextPoolUsdForTokenB)
+    if same:
+        return PricingUtils.getPriceImpactUsdForSameSideRebalance(
+            d0, d1, MarketUtils.getAdjustedSwapImpactFactor(pool_config, d1 < d0), pool_config.swapImpactExponentFactor)
+    f = MarketUtils.getAdjustedSwapImpactFactors(pool_config)
+    return PricingUtils.getPriceImpactUsdForCrossoverRebalance(d0, d1, f[0], f[1], pool_config.swapImpactExponentFactor)
+'''
+
+REF_NEXT_POOL = '''
+def getNextPoolAmountsParams(params, poolAmountForTokenA, poolAmountForTokenB):
+    a = poolAmountForTokenA * params.priceForTokenA
+    b = poolAmountForTokenB * params.priceForTokenB
+    if params.usdDeltaForTokenA < 0 and -params.usdDeltaForTokenA > a:
+        raise RuntimeError("delta exceeds pool")
+    if params.usdDeltaForTokenB < 0 and -params.usdDeltaForTokenB > b:
+        raise RuntimeError("delta exceeds pool")
+    return PoolParams(a, b, Calc.sumReturnUint256(a, params.usdDeltaForTokenA), Calc.sumReturnUint256(b, params.usdDeltaForTokenB))
+'''
+
+REF_SUM_UINT = '''
+def sumReturnUint256(a, b):
+    if a + b < 0:
+        raise RuntimeError("negative")
+    return a + b
+'''
+
+REF_NEXT_POOL_USD = '''
+def getNextPoolAmountsUsd(params, amounts):
+    if params.tokenA_is_long_token:
+        return SwapPriceUtils.getNextPoolAmountsParams(params, amounts.long, amounts.short)
+    return SwapPriceUtils.getNextPoolAmountsParams(params, amounts.short, amounts.long)
+'''
+
+# the impact of the real pool, and - only when that is negative and virtual inventories exist - the worse (smaller) of it
+# and the impact computed on the virtual inventory
+REF_IMPACT_OUTER = '''
+def getPriceImpactUsd(params, pool_status):
+    real = SwapPriceUtils._getPriceImpactUsd(
+        params.pool_config, SwapPriceUtils.getNextPoolAmountsUsd(params, Amounts(pool_status.longAmount, pool_status.shortAmount)))
+    if real >= 0:
+        return real
+    if not params.includeVirtualInventoryImpact:
+        return real
+    if pool_status.virtualSwapInventoryLong is None or pool_status.virtualSwapInventoryShort is None:
+        return real
+    if params.tokenA_is_long_token:
+        vp = SwapPriceUtils.getNextPoolAmountsParams(params, pool_status.virtualSwapInventoryLong, pool_status.virtualSwapInventoryShort)
+    else:
+        vp = SwapPriceUtils.getNextPoolAmountsParams(params, pool_status.virtualSwapInventoryShort, pool_status.virtualSwapInventoryLong)
+    virt = SwapPriceUtils._getPriceImpactUsd(params.pool_config, vp)
+    return min(virt, real)
+'''
+
+# a deposit of both tokens: the impact of the whole deposit is split pro rata to the deposited values; each side mints
+# through calc_token_amount with ITS OWN price as the in-price and the other token's as the out-price
+REF_MINT_AMOUNT = '''
+def get_mint_amount(pool_config, pool_status, long_amount, short_amount):
+    lv = long_amount * pool_status.longPrice
+    sv = short_amount * pool_status.shortPrice
+    impact = SwapPriceUtils.getPriceImpactUsd(
+        GetPriceImpactUsdParams(pool_config, pool_status.longPrice, pool_status.shortPrice, lv, sv, True, True), pool_status)
+    gm = 0
+    lfee = 0
+    sfee = 0
+    fee_value = 0
+    if long_amount > 0:
+        r = ExecuteDepositUtils.calc_token_amount(pool_config, pool_status, pool_status.longPrice, pool_status.shortPrice,
+                                                  long_amount, impact * lv / (lv + sv))
+        gm += r[0]
+        fee_value += r[1].totalFee * pool_status.longPrice
+        lfee = r[1].totalFee
+    if short_amount > 0:
+        r2 = ExecuteDepositUtils.calc_token_amount(pool_config, pool_status, pool_status.shortPrice, pool_status.longPrice,
+                                                   short_amount, impact * sv / (lv + sv))
+        gm += r2[0]
+        fee_value += r2[1].totalFee * pool_status.shortPrice
+        sfee = r2[1].totalFee
+    return LPResult(long_amount=long_amount, short_amount=short_amount, total_usd=lv + sv, gm_amount=gm, long_fee=lfee,
+                    short_fee=sfee, gm_usd=gm * PricingUtils.get_gm_price(pool_status.poolValue, pool_status.marketTokensSupply),
+                    fee_usd=fee_value, price_impact_usd=impact)
+'''
+
 REF_CALC_TOKEN = '''
 def calc_token_amount(pool_config, pool_status, tokenInPrice, tokenOutPrice, amount, priceImpactUsd):
     fees = SwapPriceUtils.getSwapFees(pool_config, amount, priceImpactUsd > 0, SwapPricingType.Deposit)
@@ -312,7 +439,31 @@ def run(model, tier="quick"):
                   FX, opaque=["getOutputAmount"])
     formula_check(res, model, V + "get_market_balance", REF_V2_BALANCE, "v2 value = shares * pool value / supply",
                   opaque=["getTokenAmountsFromGM"])
-    res.floor("obligations", len(res.obligations), 24)
+    SP, PU = "SwapPriceUtils.", "PricingUtils."
+    formula_check(res, model, PU + "applyImpactFactor", REF_IMPACT_FACTOR, "impact(diff) = diff^exponent * factor")
+    formula_check(res, model, PU + "getPriceImpactUsdForSameSideRebalance", REF_IMPACT_SAME,
+                  "same-side impact: +|.| iff the imbalance shrinks", opaque=["applyImpactFactor"])
+    formula_check(res, model, PU + "getPriceImpactUsdForCrossoverRebalance", REF_IMPACT_CROSS,
+                  "crossover impact: positive part from the initial diff, negative from the next diff", opaque=["applyImpactFactor"])
+    formula_check(res, model, MU + "getAdjustedSwapImpactFactors", REF_IMPACT_FACTORS, "positive factor capped by the negative factor")
+    formula_check(res, model, MU + "getAdjustedSwapImpactFactor", REF_IMPACT_FACTOR_ONE, "factor by sign",
+                  opaque=["getAdjustedSwapImpactFactors"])
+    formula_check(res, model, SP + "_getPriceImpactUsd", REF_IMPACT_INNER,
+                  "impact: same-side vs crossover by whether the imbalance changes sides",
+                  opaque=["getPriceImpactUsdForSameSideRebalance", "getPriceImpactUsdForCrossoverRebalance", "getAdjustedSwapImpactFactor",
+                          "getAdjustedSwapImpactFactors"])
+    formula_check(res, model, "Calc.sumReturnUint256", REF_SUM_UINT, "unsigned sum rejects a negative result")
+    formula_check(res, model, SP + "getNextPoolAmountsParams", REF_NEXT_POOL, "pool USD = amount*price; next = pool + delta, delta cannot exceed the pool",
+                  opaque=["sumReturnUint256"])
+    formula_check(res, model, SP + "getNextPoolAmountsUsd", REF_NEXT_POOL_USD, "token A is the long token or the short token",
+                  opaque=["getNextPoolAmountsParams"])
+    formula_check(res, model, SP + "getPriceImpactUsd", REF_IMPACT_OUTER,
+                  "negative impact is the worse of the real pool's and the virtual inventory's",
+                  opaque=["_getPriceImpactUsd", "getNextPoolAmountsUsd", "getNextPoolAmountsParams"])
+    formula_check(res, model, "ExecuteDepositUtils.get_mint_amount", REF_MINT_AMOUNT,
+                  "deposit: impact split pro rata to the deposited values; each side minted with its own in-price",
+                  opaque=["getPriceImpactUsd", "calc_token_amount", "get_gm_price"])
+    res.floor("obligations", len(res.obligations), 35)
     res.assumptions = ["data columns: *_price scaled by 1e30, aum by 1e30, glp supply by 1e18 (loader)",
                        "get_mint_amount's split of the price impact between the two sides is not compared (see not_decided)"]
     res.not_decided = ["round trips never profit (inequality over pool states)",
